@@ -206,6 +206,10 @@ def invalid_update(rng, current=None):
         ({"?": 4, "C+": 1}, "bad key"),
         ("nonsense", "unknown preset"),
         (5, "wrong type"),
+        ({"?": 4, "C": 4, 14: 4}, "non-string key"),
+        ({"?": 1, None: 2}, "non-string key"),
+        ({"?": 3, "N": 1, ("C",): 4}, "non-string key"),
+        ({"?": 2, b"C": 4}, "non-string key"),
         (__import__("types").MappingProxyType({"?": 4, "C": 4}), "wrong type (mapping that is not a dict)"),
         ((("?", 4), ("C", 4)), "wrong type"),
         (b"default", "wrong type"),
